@@ -45,6 +45,8 @@ type c08wrap struct {
 	dv   bool   // elements are decode values that must be wrapped
 	C    string // term of the collection
 	name string
+
+	keyseqDone bool
 }
 
 func (c *c08ctx) wrapTerm(x string) string {
@@ -65,7 +67,7 @@ func (c *c08ctx) isWrapOf(t, x string) bool {
 }
 
 func (c *c08ctx) ruleIface() {
-	ru := c.r.Rule("C08.iface", "sibling consistency of each collection wrapper: Length/SliceLen/Index/Slice/Each/Keys/Has/Key all consult the same collection in the same representation with consistent index arithmetic (Index subscripts with the index after index<0 is excluded, Slice yields elements start..end-1, Each/Keys pair position, key and value of the same element, Has is 0<=k<len or the map's comma-ok, struct Has/Key use one map)", 28)
+	ru := c.r.Rule("C08.iface", "sibling consistency of each collection wrapper: Length/SliceLen/Index/Slice/Each/Keys/Has/Key all consult the same collection in the same representation with consistent index arithmetic (Index subscripts with the index after index<0 is excluded, Slice yields elements start..end-1, Each/Keys pair position, key and value of the same element, Has is 0<=k<len or the map's comma-ok, struct Has/Key use one map and Key answers null only when the lookup failed; has() of an object wrapper never answers a boolean for a non-string key; the key sequence a plain-map wrapper enumerates has exactly one entry per key of the map)", 32)
 	ws := []*c08wrap{
 		{T: c.byKind["array"], kind: "array", C: "recv"},
 		{T: c.byKind["string"], kind: "string", C: "recv"},
@@ -313,7 +315,7 @@ func (c *c08ctx) checkSlice(ru *fw.Rule, w *c08wrap) {
 				continue
 			}
 			n++
-			lo, hi, _, ok := e.IndexRange(wr.idx)
+			lo, hi, _, ok := e.AffineRange(wr.idx)
 			if !ok || lo.String() != "0" || hi.String() != "-1*arg0 + arg1" {
 				msgs = append(msgs, "result positions written are not exactly 0..end-start-1")
 			}
@@ -363,9 +365,20 @@ func (c *c08ctx) checkEachKeys(ru *fw.Rule, w *c08wrap, meth string) {
 				lenC = "len(" + rd.seq + ")"
 			}
 		}
+		// the key sequence itself: exactly the keys of the map
+		for _, call := range fw.CallsIn(f) {
+			if e.Term(call.Value()) == lenC[4:len(lenC)-1] && lenC != "len("+w.C+")" {
+				c.checkKeySeq(ru, w, call.Common().StaticCallee())
+			}
+		}
 	}
-	if e.Int(ms.Len).String() != lenC {
-		msgs = append(msgs, "result has length "+e.Int(ms.Len).String()+", expected "+lenC)
+	// the key sequence of a plain map has one entry per key (C08.iface <wrapper>.keyseq): its length is the map's
+	lenAlt := lenC
+	if w.keyseqDone {
+		lenAlt = "len(" + w.C + ")"
+	}
+	if l := e.Int(ms.Len).String(); l != lenC && l != lenAlt {
+		msgs = append(msgs, "result has length "+l+", expected "+lenC)
 	}
 	n := 0
 	for _, wr := range seqWrites(f) {
@@ -373,8 +386,8 @@ func (c *c08ctx) checkEachKeys(ru *fw.Rule, w *c08wrap, meth string) {
 			continue
 		}
 		n++
-		lo, hi, _, ok := e.IndexRange(wr.idx)
-		if !ok || lo.String() != "0" || hi.String() != lenC {
+		lo, hi, _, ok := e.AffineRange(wr.idx)
+		if !ok || lo.String() != "0" || (hi.String() != lenC && hi.String() != lenAlt) {
 			msgs = append(msgs, "result positions written are not exactly 0.."+lenC+"-1")
 		}
 		j := e.Int(wr.idx).String()
@@ -514,7 +527,7 @@ func (c *c08ctx) checkArrayHas(ru *fw.Rule, w *c08wrap, f *ssa.Function) {
 
 // checkMapHas checks a has-function over a Go map; returns the term of the map consulted. wantM "" = any
 // map-typed path of the receiver. errOnNonString: a non-string key must not answer a boolean true.
-func (c *c08ctx) checkMapHas(ru *fw.Rule, w *c08wrap, key string, f *ssa.Function, wantM string, _ bool) string {
+func (c *c08ctx) checkMapHas(ru *fw.Rule, w *c08wrap, key string, f *ssa.Function, wantM string, errOnNonString bool) string {
 	if f == nil {
 		ru.Undecided(key, "", "has function of the value part not found")
 		return ""
@@ -586,6 +599,22 @@ func (c *c08ctx) checkMapHas(ru *fw.Rule, w *c08wrap, key string, f *ssa.Functio
 	if nTrue == 0 {
 		msgs = append(msgs, "never answers true")
 	}
+	if errOnNonString {
+		// has(<non-string>) of a JSON object is an error, never a boolean
+		strOk := "assert<string>(" + keyParam + ").ok"
+		for _, rc := range fw.ReturnCases(f, 0) {
+			inner := rc.Val
+			if mi, ok := inner.(*ssa.MakeInterface); ok {
+				inner = mi.X
+			}
+			if b, ok := inner.Type().Underlying().(*types.Basic); !ok || b.Info()&types.IsBoolean == 0 {
+				continue
+			}
+			if fw.CaseReachable(f, rc, func(cd fw.Cond) bool { return cd.True && e.Term(cd.Val) == strOk }) {
+				msgs = append(msgs, "a boolean is answered for a key that is not a string (has(0) of the JSON object is an error)")
+			}
+		}
+	}
 	ru.Check(len(msgs) == 0, key, c.pos(f), "comma-ok of "+M+"[key]", strings.Join(uniq(msgs), "; "))
 	return M
 }
@@ -635,6 +664,21 @@ func (c *c08ctx) checkStructKey(ru *fw.Rule, w *c08wrap, f *ssa.Function) string
 		}
 		if !isConstNil(rc.Val) {
 			msgs = append(msgs, "returns "+t+", expected the value-kind wrap of the looked-up child or null")
+			continue
+		}
+		// null only when the field does not exist
+		if okT != "" {
+			for _, b := range f.Blocks {
+				for _, sc := range b.Succs {
+					cd, ok := fw.EdgeCond(b, sc)
+					if !ok || !cd.True || e.Term(cd.Val) != okT {
+						continue
+					}
+					if c08ReachableFrom(sc, rc, nil) {
+						msgs = append(msgs, "answers null although the lookup succeeded: a field keys/has show reads as null")
+					}
+				}
+			}
 		}
 	}
 	if nWrap == 0 {
@@ -642,4 +686,119 @@ func (c *c08ctx) checkStructKey(ru *fw.Rule, w *c08wrap, f *ssa.Function) string
 	}
 	ru.Check(len(msgs) == 0, key, c.pos(f), "wrap of "+M+"[name] when present", strings.Join(uniq(msgs), "; "))
 	return M
+}
+
+// c08ReachableFrom: can return case rc be taken starting at block from, with the edges satisfying del removed?
+func c08ReachableFrom(from *ssa.BasicBlock, rc fw.RetCase, del func(fw.Cond) bool) bool {
+	if !fw.ReachAvoiding(from, del, nil)[rc.Block] {
+		return false
+	}
+	if rc.Succ != nil && del != nil {
+		if cd, ok := fw.EdgeCond(rc.Block, rc.Succ); ok && del(cd) {
+			return false
+		}
+	}
+	return true
+}
+
+// checkKeySeq: the helper that lists the keys of a plain map for Each/Keys returns one entry per key of its
+// receiver: an accumulator that starts empty and is appended the range key exactly once per iteration.
+func (c *c08ctx) checkKeySeq(ru *fw.Rule, w *c08wrap, h *ssa.Function) {
+	key := w.name + ".keyseq"
+	if w.keyseqDone {
+		return
+	}
+	w.keyseqDone = true
+	if h == nil || h.Blocks == nil {
+		ru.Undecided(key, "", "key sequence of the map is not produced by a static callee")
+		return
+	}
+	e := c.env(h)
+	var msgs []string
+	var rets []ssa.Value
+	fw.EachInstr(h, func(ins ssa.Instruction) {
+		if r, ok := ins.(*ssa.Return); ok && len(r.Results) >= 1 {
+			rets = append(rets, r.Results[0])
+		}
+	})
+	if len(rets) != 1 {
+		ru.Undecided(key, c.pos(h), "several returns")
+		return
+	}
+	var root func(v ssa.Value, depth int) ssa.Value
+	root = func(v ssa.Value, depth int) ssa.Value {
+		v = fw.Resolve(v)
+		if call, ok := v.(*ssa.Call); ok && fw.IsBuiltinCall(call, "append") && depth < 8 {
+			return root(call.Call.Args[0], depth+1)
+		}
+		return v
+	}
+	switch acc := root(rets[0], 0).(type) {
+	case *ssa.MakeSlice:
+		// filled by index: positions 0..len-1, each a range key
+		if e.Int(acc.Len).String() == "len(recv)" {
+			n := 0
+			for _, wr := range seqWrites(h) {
+				if wr.dest != acc {
+					continue
+				}
+				n++
+				lo, hi, _, ok := e.AffineRange(wr.idx)
+				if !ok || lo.String() != "0" || hi.String() != "len(recv)" {
+					msgs = append(msgs, "positions written are not exactly 0..len-1")
+				}
+				if t := e.Term(wr.val); !strings.HasPrefix(t, "next(range#") || !strings.HasSuffix(t, "(recv)).key") {
+					msgs = append(msgs, "entry written is "+t+", not a key of the receiver map")
+				}
+			}
+			if n != 1 {
+				msgs = append(msgs, fmt.Sprintf("%d write sites, expected 1", n))
+			}
+			break
+		}
+		msgs = append(msgs, "key sequence starts with "+e.Int(acc.Len).String()+" entries before the keys are added")
+	case *ssa.Phi:
+		// loop accumulator: edges are the initial value and the append of this iteration
+		nApp := 0
+		for _, ed := range acc.Edges {
+			switch y := fw.Resolve(ed).(type) {
+			case *ssa.MakeSlice:
+				if e.Int(y.Len).String() != "0" {
+					msgs = append(msgs, "key sequence starts with "+e.Int(y.Len).String()+" empty entries before the keys are appended")
+				}
+			case *ssa.Const:
+			case *ssa.Call:
+				if !fw.IsBuiltinCall(y, "append") || y.Call.Args[0] != ssa.Value(acc) {
+					msgs = append(msgs, "accumulator has another source: "+e.Term(ed))
+					break
+				}
+				nApp++
+				els, ok := fw.SliceLitElems(y.Call.Args[1])
+				if !ok || len(els) != 1 {
+					msgs = append(msgs, "append of something that is not one key")
+					break
+				}
+				if t := e.Term(els[0]); !strings.HasPrefix(t, "next(range#") || !strings.HasSuffix(t, "(recv)).key") {
+					msgs = append(msgs, "appends "+t+", not the key of the current entry of the receiver map")
+				}
+				// appended on every iteration
+				if nx, isNx := fw.Resolve(els[0]).(*ssa.Extract); isNx {
+					if loopBypass(nx.Tuple.(*ssa.Next).Block(), y.Block(), func(fw.Cond) bool { return false }) {
+						msgs = append(msgs, "an entry of the map can be skipped")
+					}
+				}
+			default:
+				if ed != ssa.Value(acc) {
+					msgs = append(msgs, "accumulator has another source: "+e.Term(ed))
+				}
+			}
+		}
+		if nApp != 1 {
+			msgs = append(msgs, fmt.Sprintf("%d append sites, expected 1", nApp))
+		}
+	default:
+		ru.Undecided(key, c.pos(h), "key sequence is "+e.Term(rets[0])+", not a slice built in the helper")
+		return
+	}
+	ru.Check(len(msgs) == 0, key, c.pos(h), "one entry per key of the receiver map", strings.Join(uniq(msgs), "; "))
 }
